@@ -229,8 +229,8 @@ theorem inv_outside {c : Cfg V E} {init : Pid → Entry V E} {s : Sys V E} (hi :
     (a d sl : Option Tid) (ac : Cid → Pid → Bool) (th : Thread V E)
     (hu : inU (s.thr t).pc = false) (hu' : inU th.pc = false)
     (hS : ∀ t', holdsS ((upd s.thr t th) t').pc = true → sl = some t')
-    (hA : ∀ k p, c.act0 k p = true → ac k p = true) :
-    Inv c init { s with alock := a, dlock := d, slock := sl, act := ac, thr := upd s.thr t th } := by
+    (hA : ∀ k p, c.act0 k p = true → ac k p = true) (ad : Nat := s.adepth) :
+    Inv c init { s with alock := a, adepth := ad, dlock := d, slock := sl, act := ac, thr := upd s.thr t th } := by
   have hoth : ∀ t', t' ≠ t → (upd s.thr t th) t' = s.thr t' := fun t' h => upd_other _ _ _ _ h
   refine ⟨hS, hA, hi.seenOk, ?_, ?_, ?_⟩
   · intro t' ht'
@@ -308,13 +308,28 @@ theorem inv_stepIdle {c : Cfg V E} {init : Pid → Entry V E} {s s' : Sys V E} (
       simp only at hs
       split at hs
       · cases hs
-        exact inv_outside hi t (some t) s.dlock s.slock s.act ⟨rest, .idle⟩ hu rfl (keepS _ rfl) hi.actMono
-      · cases hs
+        exact inv_outside hi t (some t) s.dlock s.slock s.act ⟨rest, .idle⟩ hu rfl (keepS _ rfl) hi.actMono 1
+      · split at hs
+        · cases hs
+          exact inv_outside hi t (some t) s.dlock s.slock s.act ⟨rest, .idle⟩ hu rfl (keepS _ rfl) hi.actMono (s.adepth + 1)
+        · cases hs
     | accRelease =>
       simp only at hs
       split at hs
       · cases hs
-        exact inv_outside hi t none s.dlock s.slock s.act ⟨rest, .idle⟩ hu rfl (keepS _ rfl) hi.actMono
+        exact inv_outside hi t _ s.dlock s.slock s.act ⟨rest, .idle⟩ hu rfl (keepS _ rfl) hi.actMono (s.adepth - 1)
+      · cases hs
+    | reqAcquire k =>
+      simp only at hs
+      split at hs
+      · cases hs
+        exact inv_outside hi t s.alock (some t) s.slock s.act ⟨rest, .idle⟩ hu rfl (keepS _ rfl) hi.actMono
+      · cases hs
+    | reqRelease =>
+      simp only at hs
+      split at hs
+      · cases hs
+        exact inv_outside hi t s.alock none s.slock s.act ⟨rest, .idle⟩ hu rfl (keepS _ rfl) hi.actMono
       · cases hs
     | activate k ps =>
       simp only at hs
@@ -735,6 +750,8 @@ def annR (o : Oracle V E) : List (Op V E) → List (Pid × VE V E)
   | .accAcquire :: rest => annR o rest
   | .accRelease :: rest => annR o rest
   | .activate _ _ :: rest => annR o rest
+  | .reqAcquire _ :: rest => annR o rest
+  | .reqRelease :: rest => annR o rest
 
 /-- the call a thread is in the middle of -/
 def inflight (o : Oracle V E) : PC V E → List (Pid × VE V E)
@@ -799,6 +816,21 @@ theorem shuf_step {c : Cfg V E} {progs : Tid → List (Op V E)} {s s' : Sys V E}
       rw [hprog] at hs
       cases op with
       | accAcquire =>
+        simp only at hs
+        split at hs
+        · cases hs
+          exact shuf_frame h t rfl rfl (fun t' ht' => upd_other _ _ _ _ ht') (by simp [hpc, hprog, annR, inflight])
+        · split at hs
+          · cases hs
+            exact shuf_frame h t rfl rfl (fun t' ht' => upd_other _ _ _ _ ht') (by simp [hpc, hprog, annR, inflight])
+          · cases hs
+      | reqAcquire k =>
+        simp only at hs
+        split at hs
+        · cases hs
+          exact shuf_frame h t rfl rfl (fun t' ht' => upd_other _ _ _ _ ht') (by simp [hpc, hprog, annR, inflight])
+        · cases hs
+      | reqRelease =>
         simp only at hs
         split at hs
         · cases hs
@@ -922,5 +954,45 @@ theorem shuf_reach {c : Cfg V E} {init : Pid → Entry V E} {progs : Tid → Lis
   induction hr with
   | start => exact shuf_init c init progs clock
   | next t _ hs ih => exact shuf_step ih t hs
+
+/-! ### the calls of the funnel made by wrappers and requests -/
+
+theorem annR_append (o : Oracle V E) (a b : List (Op V E)) : annR o (a ++ b) = annR o a ++ annR o b := by
+  induction a with
+  | nil => rfl
+  | cons op rest ih => cases op <;> simp [annR, ih]
+
+theorem annR_announces (o : Oracle V E) (p : Pid) (evs : List (Ev V E)) :
+    annR o (evs.map (fun ev => Op.announce p ev .absent)) = evs.map (fun ev => (p, resolve o ev)) := by
+  induction evs with
+  | nil => rfl
+  | cons ev rest ih => simp [annR, ih]
+
+theorem annR_guarded (o : Oracle V E) (p : Pid) (evs : List (Ev V E)) :
+    annR o (guarded p evs) = evs.map (fun ev => (p, resolve o ev)) := by
+  simp [guarded, annR_append, annR_announces, annR]
+
+/-- the calls of the funnel the program of a `change` request makes are those of `changeEvs`, all on parameter `p` -/
+theorem annR_changeOps (o : Oracle V E) (k : Cid) (p : Pid) (rq : ChangeReq V) (ck : Bool) (inner : List V)
+    (w : WriteRes V) :
+    annR o (changeOps o k p rq ck inner w) = (changeEvs o rq ck inner w).map (fun ev => (p, resolve o ev)) := by
+  unfold changeOps changeEvs
+  by_cases hro : rq.readonly = true
+  · simp [hro, changeArg, annR]
+  · cases himp : rq.imported with
+    | none => simp [himp, changeArg, annR]
+    | some v =>
+      have hro' : rq.readonly = false := by simpa using hro
+      cases hv : changeArg o rq with
+      | none => simp [hro', himp, hv, annR_append, annR]
+      | some v' => simp [hro', himp, hv, annR_append, annR, annR_guarded]
+
+theorem annR_readReqOps (o : Oracle V E) (k : Cid) (p : Pid) (inner : List V) (res : ReadRes V E) :
+    annR o (readReqOps o k p inner res) = (readEvs o inner res).map (fun ev => (p, resolve o ev)) := by
+  simp [readReqOps, annR_append, annR, annR_guarded]
+
+theorem annR_doOps (o : Oracle V E) (k : Cid) (p : Pid) (inner : List V) :
+    annR o (doOps k p inner : List (Op V E)) = (innerEvs inner).map (fun ev => (p, resolve o ev)) := by
+  simp [doOps, annR_append, annR, annR_announces]
 
 end Frappy.UpdateSys
